@@ -183,6 +183,23 @@ impl Replayer {
     fn replay_round(&mut self, beh: &Value, steps: &[Value], prefix_text: &str, full_text: &str, root_text: &str, round: u64) -> Result<(), Failure> {
         let mut st = self.start_state(beh, steps, prefix_text, root_text, round)?;
         st.ctx.memo.clear();
+        // The specification names fresh values by the smallest call id not held in any register, so an id
+        // can be used again once the old value is gone: forget bindings of values that are no longer in the
+        // pre-state.
+        {
+            let pre_text = beh["pre"].to_string();
+            st.ctx.bind.retain(|k, _| {
+                if let Some(id) = k.strip_prefix("enc:") {
+                    pre_text.contains(&format!("\"enc\",")) && pre_text.contains(id)
+                } else if let Some(name) = k.strip_prefix("ck:") {
+                    pre_text.contains(&format!("\"{}\"", name))
+                } else if let Some(c) = k.strip_prefix("split:") {
+                    pre_text.contains(&format!("[\"share\",{},", c))
+                } else {
+                    pre_text.contains(k.as_str())
+                }
+            });
+        }
         let keys = st.keys.clone();
         let n = steps.len();
         let mut rng = StdRng::seed_from_u64(self.seed ^ fnv(full_text).rotate_left(23) ^ round.wrapping_mul(0xD1B54A32D192ED03));
